@@ -28,7 +28,10 @@ def render_tokens(ts):
     return " ".join(TEXT.get(t, t) for t in ts)
 
 
-def load_all(cases, tag, timeout=1500):
+UNREPEATED = []
+
+
+def load_all(cases, tag, timeout=1500, confirm=True):
     """cases: list of (id, bytes) -> {id: outcome}"""
     d = vlib.subdir("c08")
     inp, outp = os.path.join(d, "in_%s.ndjson" % tag), os.path.join(d, "out_%s.ndjson" % tag)
@@ -38,6 +41,16 @@ def load_all(cases, tag, timeout=1500):
     outs = {o["id"]: o["outcome"] for o in vlib.read_ndjson(open(outp).read())}
     os.remove(inp)
     os.remove(outp)
+    if confirm:
+        # a hang or crash is a verdict about the code only if it happens again with the case alone in a fresh process
+        # (the deadline is wall-clock time: a starved machine can miss it); what does not repeat is an observation
+        by = dict(cases)
+        for i in [i for i, o in outs.items() if o[0] != "load"]:
+            again = load_all([(i, by[i])], tag + "_re%d" % i, timeout=timeout, confirm=False)[i]
+            if again[0] != outs[i][0]:
+                vlib.log("[C08] %s on input %d (%d bytes) did not repeat alone (%s): not a verdict" % (outs[i][0], i, len(by[i]), again[:2]))
+                UNREPEATED.append((i, outs[i][0]))
+                outs[i] = again
     return outs
 
 
@@ -120,9 +133,26 @@ def run(tier):
             g = gen_core.RandGen(random.Random(seed * 5000 + i), size=10, err_rate=0.15)
             root = g.program()
             add("rand", g.p, root, layout, eol, random.Random(i * 31 + len(layout)))
+    # two-byte line ends (CR LF, LF CR) straddling the loader's read-buffer boundaries: a long comment in front of the
+    # first token moves the text byte by byte without changing any line; the programs end in errors whose line is judged
+    for i in range(40 if thorough else 10):
+        for eol in ("\r\n", "\n\r"):
+            g = gen_core.RandGen(random.Random(seed * 5100 + i), size=8, err_rate=1.0)
+            root = g.program()
+            base = render(g.p, root, rng=random.Random(i * 37 + 1), layout="shift", eol=eol, extra_parens=0.0, semicolons=0.0)
+            finalize(g.p, root)
+            ends = [m for m in range(len(base) - 1) if base[m:m + 2] == eol]
+            picks = ends[:2] + ends[len(ends) // 2: len(ends) // 2 + 1] + ends[-2:]
+            for e in sorted(set(picks)):
+                for boundary in (4096, 8192):
+                    n = boundary - 1 - e - 6          # "--[[" + n x + "]]" puts the first byte of this line end on the last byte of a buffer
+                    if n < 0:
+                        continue
+                    progs.append({"id": len(progs) + 1, "fam": "layout:bufedge", "root": root, "nodes": [dict(nd) for nd in g.p.nodes[1:]],
+                                  "src": "--[[" + "x" * n + "]]" + base})
     verd2, cov, allv, allo, st2 = lsem.run_families(
         PROP, tier, progs,
-        "(b) every program rendered under 11 layouts (canonical; blank/comment lines of every form; line breaks inside statements; everything on one line; one token per line; long comments between the tokens of a line) x {LF, CRLF, CR}, optional semicolons and grouping-neutral parentheses, each validated against LuaSem; (a) token sequences classified by the Grammar spec; (c) loader robustness inputs",
+        "(b) every program rendered under 11 layouts (canonical; blank/comment lines of every form; line breaks inside statements; everything on one line; one token per line; long comments between the tokens of a line) x {LF, CRLF, CR}, optional semicolons and grouping-neutral parentheses, each validated against LuaSem; two-byte line ends moved across the loader's 4096-byte read boundaries; (a) token sequences classified by the Grammar spec; (c) loader robustness inputs",
         [], t0, max_steps=30000)
     for key, what, path in verd2.violations:
         verd.violations.append((key, what, path))
@@ -235,7 +265,7 @@ def run(tier):
     cov["distinct_nontrivial"] += len(accepted)
     cov["acceptance"] = {"token_sequences": len(recs), "exhaustive_up_to_length": 3, "grammar_accepts": len(accepted), "loader_accepts_those": nacc_ok,
                          "loader_accepts_more_not_judged": extra_accept}
-    cov["robustness"] = {"inputs": len(cases), "outcomes": nrob}
+    cov["robustness"] = {"inputs": len(cases), "outcomes": nrob, "hangs_or_crashes_that_did_not_repeat_alone": len(UNREPEATED)}
     cov["known_findings_hit"] = sorted(verd.known_hit)
     vlib.write_evidence(PROP, tier, "model_checking", cov, time.time() - t0, len(verd.violations), assumptions=[
         "acceptance is one-directional (loader may accept more than the grammar); goto/labels are not classified by the recogniser",
